@@ -110,6 +110,13 @@ fn expected_for(ast: &Aidl, defined: &BTreeMap<String, Vec<ResolvedItemKind>>, f
                 findings.push(format!("WITNESS property=C05 type `{}` resolved to {:?}, allowed {:?}; source: {:?}", t.name, t.kind, allowed, src));
             }
             if t.kind == TypeKind::Unresolved { ex.push(Exp { prop: "C05", err: true, range: r(&t.symbol_range), related: None, what: format!("unknown type {}", t.name) }); }
+            // C17: the qualified name a resolved type symbol reports is the key it resolved to, and that key ends with the name as written
+            if let TypeKind::ResolvedItem(key, _) = &t.kind {
+                let q = aidl_parser::symbol::Symbol::Type(t).get_qualified_name();
+                if q.as_deref() != Some(key.as_str()) || !(key == &t.name || key.ends_with(&format!(".{}", t.name))) {
+                    findings.push(format!("WITNESS property=C17 type written `{}` reports qualified name {:?} (stored key {:?}); source: {:?}", t.name, q, key, src));
+                }
+            }
         }
         match &t.kind {
             TypeKind::ResolvedItem(k, _) => { resolved.insert(k.clone()); }
